@@ -95,7 +95,11 @@ class RefStop:
                 self.latched[i] = True
                 if n > 0:
                     pv = c['series'](n - 1)
-                    self.time[i] = (times[n] - times[n - 1]) * (c['value'] - pv) / (v - pv) + times[n - 1]
+                    if v == pv:
+                        self.time[i] = times[n - 1]
+                    else:
+                        tt = (times[n] - times[n - 1]) * (c['value'] - pv) / (v - pv) + times[n - 1]
+                        self.time[i] = min(max(tt, times[n - 1]), times[n])
                 else:
                     self.time[i] = times[n]
         ors = [self.latched[i] for i, c in enumerate(self.conds) if c['mode'] == 'or']
